@@ -583,12 +583,15 @@ func execBatch(sc *Scenario, env *Env) *Result {
 		disk := NewSimDisk()
 		out := run(order, sc.Sched, disk, 0)
 		allV = append(allV, checkBatchOutcome(sc, order, refs, out, res, false)...)
-		if sc.Params["record"] != "" {
-			sc.Sched.Decisions = out.Decisions
+		if sc.Params["record"] != "" && os.Getenv("VERIF_EMIT_DECISIONS") != "" {
+			res.Decisions = out.Decisions
 		}
 	case "permute":
 		disk := NewSimDisk()
 		out := run(order, sc.Sched, disk, 0)
+		if sc.Params["record"] != "" && os.Getenv("VERIF_EMIT_DECISIONS") != "" {
+			res.Decisions = out.Decisions
+		}
 		allV = append(allV, checkBatchOutcome(sc, order, refs, out, res, false)...)
 		// second batch: permuted lines, other concurrency, other schedule
 		r := NewRNG(sc.Sched.Sub).Sub("permute", 0)
